@@ -34,6 +34,7 @@ import (
 
 	"github.com/projectcalico/calico/felix/ifacemonitor"
 	"github.com/projectcalico/calico/felix/ip"
+	"github.com/projectcalico/calico/felix/netlinkshim"
 	"github.com/projectcalico/calico/felix/netlinkshim/mocknetlink"
 	"github.com/projectcalico/calico/felix/routetable"
 	"github.com/projectcalico/calico/felix/routetable/ownershippol"
@@ -163,6 +164,8 @@ type c17H struct {
 	faultsSinceGood    int
 	sawConflict        bool
 	suspectStaleTracker bool
+	eintrArmed          bool // next whole-table route dump is interrupted after a concurrent removal
+	eintrPick           int
 	rec                 *ev.Recorder
 
 	ops        []string
@@ -262,7 +265,13 @@ func (h *c17H) newRouteTable() {
 		routetable.WithRouteCleanupGracePeriod(h.cfg.grace),
 		routetable.WithConntrackCleanup(false),
 		routetable.WithTimeShim(h.tm),
-		routetable.WithNetlinkHandleShim(h.dp.NewMockNetlink),
+		routetable.WithNetlinkHandleShim(func() (netlinkshim.Interface, error) {
+			nl, err := h.dp.NewMockNetlink()
+			if err != nil || nl == nil {
+				return nl, err
+			}
+			return &c17Handle{Interface: nl, h: h}, nil
+		}),
 	)
 	h.desired = map[routetable.RouteClass]map[string]map[c17Key]routetable.Target{}
 	h.pendingIfaceEvents = nil
@@ -618,6 +627,64 @@ func (h *c17H) drawTarget(t *rapid.T, class routetable.RouteClass, iface string)
 	return tg
 }
 
+// c17Handle wraps the netlink handle the RouteTable gets from the mock, to emulate a route dump
+// that is interrupted (EINTR) because the kernel's table changed while it was being dumped.
+type c17Handle struct {
+	netlinkshim.Interface
+	h *c17H
+}
+
+func (n *c17Handle) RouteListFilteredIter(family int, filter *netlink.Route, filterMask uint64, f func(netlink.Route) bool) error {
+	h := n.h
+	if !h.eintrArmed || filterMask&netlink.RT_FILTER_OIF != 0 {
+		return n.Interface.RouteListFilteredIter(family, filter, filterMask, f)
+	}
+	// A whole-table dump (full resync): deliver the routes, then the kernel changes and the dump
+	// ends with EINTR.  The retried dump runs normally and sees the final state.
+	routes, err := n.Interface.RouteListFiltered(family, filter, filterMask)
+	if err != nil {
+		return err
+	}
+	h.eintrArmed = false
+	sort.Slice(routes, func(i, j int) bool { return mocknetlink.KeyForRoute(&routes[i]) < mocknetlink.KeyForRoute(&routes[j]) })
+	for _, r := range routes {
+		if !f(r) {
+			break
+		}
+	}
+	// Remove one Felix-owned route (another agent, or a link flap the kernel already undid);
+	// prefer one Felix currently wants.
+	wanted := map[string]bool{}
+	for k := range h.winners() {
+		wanted[c17MockKey(k)] = true
+	}
+	var ownedWanted, owned []string
+	for k, r := range h.dp.RouteKeyToRoute {
+		if h.routeOwned(&r) {
+			owned = append(owned, k)
+			if wanted[k] {
+				ownedWanted = append(ownedWanted, k)
+			}
+		}
+	}
+	pickFrom := ownedWanted
+	if len(pickFrom) == 0 {
+		pickFrom = owned
+	}
+	if len(pickFrom) > 0 {
+		sort.Strings(pickFrom)
+		delete(h.dp.RouteKeyToRoute, pickFrom[h.eintrPick%len(pickFrom)])
+		h.classes["eintr-dump-with-concurrent-removal"] = true
+		if len(ownedWanted) > 0 {
+			h.classes["eintr-dump-removed-wanted-route"] = true
+		}
+	} else {
+		h.classes["eintr-dump-nothing-to-remove"] = true
+	}
+	h.faultsSinceGood++
+	return unix.EINTR
+}
+
 type c17Slot struct {
 	Class routetable.RouteClass
 	Iface string
@@ -929,6 +996,17 @@ func TestVerifC17RouteSync(t *testing.T) {
 				h.faultsSinceGood++
 				h.ops = append(h.ops, "f")
 			},
+			"eintrDuringFullResync": func(t *rapid.T) {
+				// The next full-resync dump is interrupted by EINTR after the kernel dropped one of
+				// Felix's routes mid-dump.  The retried dump sees the final state, so Felix's
+				// knowledge stays current.
+				h.eintrArmed = true
+				h.eintrPick = rapid.IntRange(0, 7).Draw(t, "pick")
+				h.rt.QueueResync()
+				h.resyncRequested = true
+				h.classes["eintr-race-armed"] = true
+				h.ops = append(h.ops, "E")
+			},
 			"queueResync": func(t *rapid.T) {
 				h.rt.QueueResync()
 				h.resyncRequested = true
@@ -961,6 +1039,7 @@ func TestVerifC17RouteSync(t *testing.T) {
 			"converge": func(t *rapid.T) {
 				h.ops = append(h.ops, "C")
 				h.dp.FailuresToSimulate = 0
+				h.eintrArmed = false
 				h.deliverPending()
 				for round := 0; round < 2; round++ {
 					h.tm.IncrementTime(h.cfg.grace + time.Second)
